@@ -266,10 +266,13 @@ double _vnacal_new_solve_calc_pvalue(vnacal_new_solve_state_t *vnssp,
      */
 
     /*
-     * If there are no degrees of freedom, then the p-value is zero.
+     * If there are no degrees of freedom, the system is exactly
+     * determined: there are no residuals that could speak against the
+     * model, and the hypothesis that the data are consistent with it
+     * cannot be rejected.
      */
     if (df < 1) {
-	return 0.0;
+	return 1.0;
     }
 
     /*
